@@ -289,6 +289,9 @@ def gen_vhistory(rng, k=1, restart=None):
     return c, procs, (val_steps, has_val), theta
 
 
+_TRAIN_OBJECTS = None
+
+
 def train_objects() -> list[tuple[str, str]]:
     """what the REAL `Engine.train` hands to its Checkpointer, with and without mixed precision, and what becomes of each
     object in `Checkpointer.save`: 'state' (a HasStateDict: serialised), 'meta' (`__x__`: stored as is) or 'dropped' (fails the
@@ -298,6 +301,9 @@ def train_objects() -> list[tuple[str, str]]:
 
     from direct.types import HasStateDict
 
+    global _TRAIN_OBJECTS
+    if _TRAIN_OBJECTS is not None:
+        return _TRAIN_OBJECTS
     rows: dict[str, str] = {}
     for mixed in (False, True):
         c = toy.gen_cfg(__import__("random").Random(1), k=1, T=6, bs=1)
@@ -319,7 +325,8 @@ def train_objects() -> list[tuple[str, str]]:
                 "state" if isinstance(obj, get_args(HasStateDict)) else "dropped"
             if rows.get(key) != "dropped":
                 rows[key] = kind
-    return sorted(rows.items())
+    _TRAIN_OBJECTS = sorted(rows.items())
+    return _TRAIN_OBJECTS
 
 
 def run_vhistory(c, procs, val, theta, real_scaler=False):
